@@ -41,6 +41,20 @@ extern const int h_cookie[16];
 void h_priv_check(const void * p, int k);
 
 /* parsing: decimal, "M" = SIZE_MAX, "M-k" = SIZE_MAX-k */
+/*
+ * A comparison function is specified only by the sign of its result.  The
+ * harness comparators therefore return magnitudes that do not follow the
+ * order of the keys (deterministic in the two keys): code that treats the
+ * result as a distance, or compares it with 1 / -1, misbehaves visibly.
+ */
+static inline int h_cmp_result(long long x, long long y)
+{
+    const unsigned long long h = ((unsigned long long)x * 0x9E3779B97F4A7C15ULL)
+                                 ^ ((unsigned long long)y * 0xC2B2AE3D27D4EB4FULL);
+    const int mag = 1 + (int)((h >> 29) % 1000);
+    return x > y ? mag : x < y ? -mag : 0;
+}
+
 size_t h_size(const char * s);
 long long h_int(const char * s);
 
